@@ -45,3 +45,17 @@ Theorem C09_holds_when_starts_coincide_example :
   end.
 Proof. vm_compute. reflexivity. Qed.
 Print Assumptions C09_holds_when_starts_coincide_example.
+
+From Muxide Require Export Model.Writer Spec.Layout Proofs.EndToEndProofs Proofs.SyncProofs.
+(* the class in which the property HOLDS, for all histories: when the first accepted audio frame
+   has the tick of the first accepted video frame's decode time (or there is no audio), every audio
+   sample's presentation time relative to the first video sample, read back from the file, is
+   within one tick of the submitted difference *)
+Theorem C09_sync_preserved_when_starts_coincide : forall b m0 ops m rs s,
+  build b [] = inl m0 -> run m0 ops = (m, rs) -> In (RStats s) rs ->
+  Forall op_payload_ok ops -> len (sink_of m) < 4294967296 ->
+  sumN (durations_of (asamples (m_writer m)) (w_alast_delta (m_writer m))) < 4294967296 ->
+  starts_aligned (accepted b ops (map class_of rs)) ->
+  check_C09 b ops (map class_of rs) (sink_of m) = true.
+Proof. exact sync_preserved_when_starts_coincide. Qed.
+Print Assumptions C09_sync_preserved_when_starts_coincide.
